@@ -82,6 +82,9 @@ def proj_check(kind, case, rec):
     rec.require("project-shape", proj.shape == (npts,) + ts, [proj.shape, (npts,) + ts])
     if proj.shape == (npts,) + ts:
         rec.close("project-own-space=nodal-values", float(np.abs(proj.reshape(npts, size) - vals)[used].max()), 1e-8, {"kind": kind, "order": case["order"]})
+        # the same values in column-major memory order (a transposed view, data read from a Fortran-ordered file): same result
+        proj_f = np.asarray(fem.project(np.asfortranarray(vq_t), region))
+        rec.close("project(Fortran-ordered values)=project(values)", float(np.abs(proj_f - proj).max()) if proj_f.shape == proj.shape else float("inf"), 1e-12)
     # caller-supplied differential volumes (e.g. 2 pi R dA or J dV): both sides of the projection use them, own-space values
     # are reproduced for any positive weights and the weighted integral is preserved
     wdv = np.asarray(region.dV) * rng.uniform(0.5, 2.0, np.asarray(region.dV).shape)
